@@ -272,7 +272,7 @@ func runC08(r *Run, p *Prog) {
 	// ---- B5
 	r.Guard("B5", func() {
 		ng := 0
-		for _, fr := range w.Frags {
+		for _, fr := range w.Segs {
 			if i := strings.Index(fr.Text, "GetParameters(&in)"); i >= 0 {
 				ng++
 				rest := fr.Text[i:]
@@ -286,7 +286,7 @@ func runC08(r *Run, p *Prog) {
 			r.Ob("B5", root, "the dispatcher decodes parameters with call.GetParameters(&in)", w.funcs[root].Pos(), false, "no such fragment in the template")
 		}
 		has := func(sub ...string) bool {
-			for _, fr := range w.Frags {
+			for _, fr := range w.Segs {
 				all := true
 				pos := 0
 				for _, s := range sub {
@@ -314,7 +314,7 @@ func runC08(r *Run, p *Prog) {
 		re := regexp.MustCompile(`([A-Za-z_][A-Za-z0-9_.]*)\.Reply(MethodNotFound|MethodNotImplemented|InvalidParameter|InterfaceNotFound)\(`)
 		sigOK, redefined := false, false
 		n := 0
-		for _, fr := range w.Frags {
+		for _, fr := range w.Segs {
 			if strings.Contains(fr.Text, "VarlinkDispatch(ctx context.Context, call varlink.Call, methodname string)") {
 				sigOK = true
 			}
